@@ -82,12 +82,10 @@ Archetype& EntityManager::getArchetype(const ComponentIdMask& mask, const Shared
 void EntityManager::clear() {
     MUSTACHE_PROFILER_BLOCK_LVL_0(__FUNCTION__ );
 
-    entities_.clear();
-    locations_.clear();
-    next_slot_ = EntityId::make(0);
-    empty_slots_ = 0u;
+    // every entity is destroyed the way clearArchetype() destroys it: its id is released with the next version,
+    // so handles issued before the clear stay invalid when the ids are used again
     for(auto& arh : archetypes_) {
-        arh->clear();
+        clearArchetype(*arh);
     }
 }
 
